@@ -620,6 +620,39 @@ func installMonitor(i *interpreter, kind string) {
 			onMapWrite: func(fr *frame, m *omap) {},
 			onMapRead:  func(fr *frame, m *omap) {},
 		}
+	case "off":
+		i.monitor = nil
+	case "expronce":
+		// C06: under Memoize(true) every (expression, offset) pair is evaluated at most once
+		type key struct {
+			expr value
+			off  int64
+		}
+		seen := map[key]int{}
+		i.monitor = &monitor{
+			onEnter: func(fr *frame, fn *ssa.Function, args []value) {
+				if fn.Name() != "parseExpr" || fn.Signature.Recv() == nil || len(args) != 2 {
+					return
+				}
+				p := (*args[0].(*value)).(structure)
+				pt := p[fieldIndex(mustDeref(fn.Signature.Recv().Type()), "pt")].(structure)
+				off := asInt64raw(pt[0].(structure)[2])
+				e, ok := args[1].(iface)
+				if !ok {
+					return
+				}
+				k := key{e.v, off}
+				seen[k]++
+				if seen[k] > 1 {
+					fr.i.ex.addCex(fmt.Sprintf("C06: an expression (%s) is evaluated a second time at offset %d although Memoize is on", e.t, off), fr.i.ex.model())
+					panic(pathEnd{"assertion failed"})
+				}
+			},
+			onExit:     func(fr *frame, fn *ssa.Function) {},
+			onStore:    func(fr *frame, addr *value) {},
+			onMapWrite: func(fr *frame, m *omap) {},
+			onMapRead:  func(fr *frame, m *omap) {},
+		}
 	case "ownership":
 		installOwnership(i)
 	default:
